@@ -212,6 +212,26 @@ fn decode(b: &[u8]) -> Outcome<(Value, usize)> {
 pub fn graph_case(case: &Value, _dispatch: Dispatch, r: &mut Report) {
     let g = &case["g"];
     let b = bytes_of(&case["b"]);
+    // implementation trace of the object table: one writer run, one reader run on its bytes (Trace_Refs.tla)
+    if let Some(mut t) = crate::trace::TraceFile::open(case) {
+        let root = build(g);
+        t.line(json!({"ev": "begin", "side": "w"}));
+        t.start();
+        let enc = guarded(|| desert_core::serialize_to_byte_vec(&root));
+        let evs = t.stop();
+        crate::trace::ref_events(&mut t, &evs);
+        t.line(json!({"ev": "end", "side": "w", "ok": matches!(enc, Ok(Ok(_))) as i32, "n": case["canon"]["n"]}));
+        if let Ok(Ok(real)) = &enc {
+            t.line(json!({"ev": "begin", "side": "r"}));
+            t.start();
+            let dec = decode(real);
+            let evs = t.stop();
+            crate::trace::ref_events(&mut t, &evs);
+            t.line(json!({"ev": "end", "side": "r", "ok": matches!(dec, Outcome::Ok(_)) as i32, "n": case["canon"]["n"]}));
+        }
+        t.flush();
+        r.count("traced_graphs");
+    }
     // encode: terminates on cycles, bytes as specified, each reachable node written once
     r.count("graph_enc");
     BODIES.with(|x| *x.borrow_mut() = 0);
